@@ -150,9 +150,13 @@ def run_dict_edits(acc, inputs_L=3, only=None):
                         elif res == "recursive" and not cyc:
                             bad = ("grammar-without-left-recursion-rejected", cur, cyc)
                         if bad:
+                            # is it the history, or does a fresh dict with the same content fail as well?
+                            fres, _ = H.build(cfg, start, bad[1], smart)
+                            acc.trans()
+                            suffix = "" if fres == res else ":same-productions-dict-edited-in-place"
                             case = G.to_case(cfg, start, prods, smart=smart, dict_edit={
                                 "symbol": sym, "alt": list(alt), "pos": pos, "direction": direction})
-                            acc.violation("C03:" + bad[0] + ":same-productions-dict-edited-in-place", case,
+                            acc.violation("C03:" + bad[0] + suffix, case,
                                           f"construction {step + 1} of 2 from one productions dict object "
                                           f"({direction} {sym}→{' '.join(alt)} in place between the calls): the "
                                           f"constructor answered {res!r} for the current content "
